@@ -8,6 +8,7 @@ import MalVerif.Model.Serial
 import MalVerif.Model.AGSerial
 import MalVerif.Model.Compiler.Parser
 import MalVerif.Model.LangGraph
+import MalVerif.Model.Legacy
 open Lean MalVerif
 
 namespace Drv
@@ -549,6 +550,47 @@ def opLangGraph (j : Json) : R Json := do
           | .ok none => Json.null
           | .error _ => jS "LookupError") quads)]
 
+
+/-! ### legacy loaders (C18) -/
+open Legacy in
+def oldDocToJson (d : OldDoc) : Json :=
+  let pair (a : String × String) : Json := Json.arr #[jS a.1, jS a.2]
+  jO [("assets", jsonOfList (fun (e : Ser.Key × OldAssetEntry) => Json.arr #[keyToJson e.1,
+          match e.2 with
+          | .full n t ds => jO [("name", jS n), ("metaconcept", jS t), ("defenses", jsonOfList pair ds)]
+          | .shorthand t => jS t]) d.assets),
+      ("associations", jsonOfList (fun (a : OldAssoc) => jO [("metaconcept", jS a.metaconcept), ("lf", jS a.lf),
+          ("left", jsonOfList keyToJson a.left), ("rf", jS a.rf), ("right", jsonOfList keyToJson a.right)]) d.associations),
+      ("attackers", jsonOfList (fun (e : Ser.Key × Ser.AttackerEntry) => Json.arr #[keyToJson e.1,
+          jO [("name", jS e.2.name), ("entry", jsonOfList (fun (p : Ser.Key × List String) =>
+              Json.arr #[keyToJson p.1, jsonOfList jS p.2]) e.2.entry)]]) d.attackers)]
+
+open Legacy in
+def scadDocToJson (d : ScadDoc) : Json :=
+  jO [("objects", jsonOfList (fun (o : ScadObject) => jO [("id", jI o.id), ("name", jS o.name), ("metaConcept", jS o.metaConcept),
+          ("defenses", jsonOfList (fun (x : String × String) => Json.arr #[jS x.1, jS x.2]) o.defenses)]) d.objects),
+      ("associations", jsonOfList (fun (a : ScadAssoc) => jO [("sourceObject", jI a.sourceObject), ("targetObject", jI a.targetObject),
+          ("sourceProperty", jS a.sourceProperty), ("targetProperty", jS a.targetProperty)]) d.associations)]
+
+/-- build a model by a history; emit it in a legacy layout; load that with the model of the legacy loader -/
+def opLegacy (j : Json) : R Json := do
+  let L ← parseLang (← jget j "lang")
+  let ops ← jfield jarr j "ops"
+  let which ← jfield jstr j "which"
+  let s ← runModelOps L ops
+  let native := match Ser.fromDoc L (fun _ => true) (Ser.toDoc L s) with | .ok s' => obsM L s' | .error e => jS (mErrName e)
+  if which == "old" then
+    let d := Legacy.emitOld (Ser.jsonRT (Ser.toDoc L s))
+    let loaded := match Legacy.loadOld L (fun _ => true) d with | .ok s' => obsM L s' | .error e => jS (mErrName e)
+    pure (jO [("doc", oldDocToJson d), ("loaded", loaded), ("native", native)])
+  else
+    match LG.generate L with
+    | .error e => pure (jO [("error", jS (lgErrName e))])
+    | .ok g =>
+      let d := Legacy.emitScad L s
+      let loaded := match Legacy.loadScad L g.assocs (fun _ => true) d with | .ok s' => obsM L s' | .error e => jS (mErrName e)
+      pure (jO [("doc", scadDocToJson d), ("loaded", loaded), ("native", native)])
+
 def dispatch (j : Json) : R Json := do
   let op ← jfield jstr j "op"
   match op with
@@ -561,6 +603,7 @@ def dispatch (j : Json) : R Json := do
   | "classes" => opClasses j
   | "compile" => opCompile j
   | "langgraph" => opLangGraph j
+  | "legacy" => opLegacy j
   | "lex" => opLex j
   | "ser_model" => opSerModel j
   | "load_doc" => opLoadDoc j
